@@ -1493,7 +1493,7 @@ def _from_utf8(I, ci, b):
 
 
 # ------------------------------------------------------------------ hashing (DefaultHasher has fixed keys: a pure function)
-@model('DefaultHasher::new', 'DefaultHasher::default', 'RandomState::new')
+@model('DefaultHasher::new', 'DefaultHasher::default')
 def _hasher_new(I, ci):
     return Opaque('Hasher', [])
 
